@@ -169,6 +169,40 @@ def genBig (c : BigCfg) : Outcome (List Level) :=
   bigLoop c c.nodes [[(0, 0)]] [(0, 0)]
     { used := (List.replicate c.ilLen false).set 0 true, roIndex := 1 % c.ilLen, total := 1 }
 
+/-! ### the roster as a list of server keys: root lookup, node identifiers -/
+
+/-- `ro.Search(id)` (tree.go:498-505): position of the first roster entry with that id; a server's
+id is a function of its public key alone (`ServerIdentity.GetID`), so servers are their keys here -/
+def search (keys : List Nat) (k : Nat) : Option Nat := keys.findIdx? (· == k)
+
+/-- `GenerateNaryTreeWithRoot(N, root)` (tree.go:639-650) on the roster with these keys: `root = none`
+is Go's `nil` (the first server is taken, `ro.List[0]` — index out of range on an empty list),
+`some k` a server with key `k` (looked up with `Search`; not found: `return nil`) -/
+def genNaryKeys (N : Nat) (keys : List Nat) (root : Option Nat) : Outcome Nodes :=
+  match root with
+  | none => if keys = [] then .panic else genNary N (some 0) keys.length
+  | some k => genNary N (search keys k) keys.length
+
+/-- the node identifiers of a tree: `NewTreeNode` (tree.go:906-915) derives a node's id from its
+server's public key and from nothing else (injectively: `C13.c13_name_preimage_injective`) -/
+def nodeIds (keys : List Nat) (t : Nodes) : List Nat := t.map fun x => keys.getD x.1 0
+
+/-! ### users of the generators: simulations (simulation.go:248-361) -/
+
+/-- `SimulationBFTree.CreateRoster(sc, addresses, port)`: server `c` of `Hosts` gets the address
+`addresses[c % len(addresses)] : port + (c / len(addresses))·2`, so its host is `c % nbrAddr`
+(the given addresses are pairwise distinct host names) -/
+def simHosts (hosts nbrAddr : Nat) : List Nat := (List.range hosts).map (· % nbrAddr)
+
+/-- the port offset of server `c` -/
+def simPort (nbrAddr c : Nat) : Nat := (c / nbrAddr) * 2
+
+/-- `CreateRoster` followed by `CreateTree` (simulation.go:351-361):
+`sc.Roster.GenerateBigNaryTree(s.BF, s.Hosts)` over the `Hosts` servers just created — the number of
+nodes always equals the roster size (use-all mode) -/
+def genSim (bf hosts nbrAddr : Nat) : Outcome (List Level) :=
+  genBig { N := bf, nodes := hosts, hosts := simHosts hosts nbrAddr }
+
 /-! ### line-protocol driver -/
 namespace Drv
 
@@ -253,6 +287,54 @@ def step (s : State) (toks : List String) : State × String :=
     match n.toNat? with
     | some n => if n = 0 then (s, "bad-op") else (s, showOutcome (genBinary n))
     | none => (s, "bad-op")
+  -- `naryk <N> <root key | nil> <keys>`: the roster is given by its servers' keys (repeats allowed),
+  -- the root by key (`nil`: no root given)
+  | ["naryk", bn, r, keys] =>
+    match bn.toNat?, Util.natList keys with
+    | some bn, some keys =>
+      if r = "nil" then (s, showOutcome (genNaryKeys bn keys none)) else
+      match r.toNat? with
+      | some k => (s, showOutcome (genNaryKeys bn keys (some k)))
+      | none => (s, "bad-op")
+    | _, _ => (s, "bad-op")
+  -- `bigempty <N> <nodes>`: GenerateBigNaryTree on a roster without servers
+  | ["bigempty", bn, nodes] =>
+    match bn.toNat?, nodes.toNat? with
+    | some bn, some nodes =>
+      (s, match genBig { N := bn, nodes := nodes, hosts := [] } with
+          | .tree lv => showTree (flatten lv)
+          | .noTree => "none"
+          | .panic => "panic"
+          | .hang => "hang")
+    | _, _ => (s, "bad-op")
+  -- `sim <hosts> <bf> <nbrAddr> <tls>`: SimulationBFTree{BF, Hosts}.CreateRoster over `nbrAddr` host
+  -- names, then CreateTree; `simnil <hosts> <bf>`: CreateTree without a roster
+  | ["sim", hosts, bf, na, tls] =>
+    match hosts.toNat?, bf.toNat?, na.toNat? with
+    | some hosts, some bf, some na =>
+      if hosts = 0 ∨ na = 0 ∨ hosts > 4096 ∨ (tls ≠ "0" ∧ tls ≠ "1") then (s, "bad-op") else
+      (s, match genSim bf hosts na with
+          | .tree lv => showTree (flatten lv) ++ " hosts=" ++ Util.showNatList (simHosts hosts na) ++
+              " ports=" ++ Util.showNatList ((List.range hosts).map (simPort na))
+          | .noTree => "none"
+          | .panic => "panic"
+          | .hang => "hang")
+    | _, _, _ => (s, "bad-op")
+  -- `simlocal <hosts> <bf>`: the same over the single host name 127.0.0.1 (ports are found by listening)
+  | ["simlocal", hosts, bf] =>
+    match hosts.toNat?, bf.toNat? with
+    | some hosts, some bf =>
+      if hosts = 0 ∨ hosts > 16 then (s, "bad-op") else
+      (s, match genSim bf hosts 1 with
+          | .tree lv => showTree (flatten lv) ++ " hosts=" ++ Util.showNatList (simHosts hosts 1)
+          | .noTree => "none"
+          | .panic => "panic"
+          | .hang => "hang")
+    | _, _ => (s, "bad-op")
+  | ["simnil", hosts, bf] =>
+    match hosts.toNat?, bf.toNat? with
+    | some _, some _ => (s, "err")
+    | _, _ => (s, "bad-op")
   | _ => (s, "bad-op")
 
 end Drv
